@@ -109,7 +109,9 @@ def gen_dist(rng, idx):
             continue
         if rng.chance(1, 3):
             # a burst of writes fills the distributor's queue right before the membership change arrives
-            lines.append('dist-burst 0 %d' % rng.choice([200, 999, 1000, 1001, 1500, 3000]))
+            # (sizes around every plausible queue capacity: a change that bounds the queue and drops what does not fit loses the
+            # membership change behind the burst - and nobody sends that change again)
+            lines.append('dist-burst 0 %d' % rng.choice([200, 999, 1000, 1001, 1500, 3000, 4095, 4096, 4097, 5000, 10000, 16385, 40000, 70000]))
         lines.append('dist-change 0 %s %s' % (','.join(left) or '-', ','.join(joined) or '-'))
         doc += 1
         lines.append('dist-put 0 %d %02x' % (doc, rng.below(256)))
